@@ -176,6 +176,9 @@ fn recurse(expr: &Expr, fmt: &mut fmt::Formatter<'_>, prec: Precedence) -> fmt::
     {
         {
             match *expr {
+                // `x of y` is a property lookup: a unit that happens to be
+                // called `of` must not follow another word directly.
+                Expr::Unit { ref name } if name == "of" => write!(fmt, "(of)"),
                 Expr::Unit { ref name } => write_ident(fmt, name),
                 Expr::Quote { ref string } => {
                     write!(fmt, "'")?;
